@@ -433,8 +433,20 @@ class C15(SingleRun):
             ref = rng.choice(["<% ctx(zz_unassigned) %>", "<% ctx().zz_unassigned %>", "{{ ctx('zz_unassigned') }}",
                               "{{ ctx().zz_unassigned }}"])
             n = names[rng.randrange(len(names))]
-            where = rng.choice(["input", "when", "publish", "output"])
-            if where == "when" and tasks[n].get("next"):
+            where = rng.choice(["input", "when", "publish", "output", "retry_when", "retry_count", "retry_delay", "delay"])
+            if where.startswith("retry") or where == "delay":
+                if where == "delay":
+                    tasks[n]["delay"] = ref
+                else:
+                    r_ = tasks[n].setdefault("retry", {"count": 1})
+                    r_[where[6:]] = ref if where != "retry_when" else ref.replace("%>", "= 1 %>").replace("}}", "== 1 }}")
+                    # a retry command in `do` would override the block: drop it from this mutant
+                    for tr in tasks[n].get("next") or []:
+                        if isinstance(tr.get("do"), list) and "retry" in tr["do"]:
+                            tr["do"] = [x_ for x_ in tr["do"] if x_ != "retry"] or ["noop"]
+                        elif tr.get("do") == "retry":
+                            tr["do"] = "noop"
+            elif where == "when" and tasks[n].get("next"):
                 tasks[n]["next"][0]["when"] = ref.replace("%>", "= 1 %>").replace("}}", "== 1 }}")
             elif where == "publish" and tasks[n].get("next") and isinstance(tasks[n]["next"][0].get("publish", []), list):
                 tasks[n]["next"][0].setdefault("publish", []).append({"zz_copy": ref})
